@@ -247,6 +247,42 @@ def _prepared_requests_case(ctx: Ctx, case, suite: str = "prepared_requests"):
     ctx.case(suite, {"knobs": case["knobs"], "units": len(units), "state": gen.short(case["state"])}, nontrivial=len(units) > 0, key=case)
 
 
+def _slab_hole_case(ctx: Ctx, gap_mib: int, suite: str = "prepared_requests"):
+    """Only some members of one slab are read (subset restore), and the ones that are read lie far apart in the slab:
+    every requested read request must still be executed exactly once."""
+    import gen
+    import sim
+    import torch
+    from torchsnapshot import Snapshot
+    ROOT = "/snap/c11h"
+    from props import c07
+    if not c07._ensure_gloo():
+        ctx.notes.append("1-rank gloo group unavailable: slab-hole case skipped")
+        return
+    cols = 1024
+    r = max(2, gap_mib * (1 << 20) // 2 // (cols * 4))          # two middle shards make the hole
+    g = (torch.arange(4 * r * cols, dtype=torch.float32) % 1000.0).reshape(4 * r, cols)
+    world = sim.World(1)
+    inp = {"slab_hole_mib": gap_mib, "prepared_requests": True}
+    try:
+        with sim.knobs(budget=10 ** 9):
+            world.run1(lambda: Snapshot.take(ROOT, {"s": gen.RecStateful({"st": c07._mk_sharded(g.clone(), [(0, r), (r, 2 * r), (2 * r, 3 * r), (3 * r, 4 * r)])})}))
+            tgt = c07._mk_sharded(torch.full_like(g, -1.0), [(0, r), (3 * r, 4 * r)])        # needs the first and the last saved shard only
+            dst = gen.RecStateful({"st": tgt})
+            world.run1(lambda: Snapshot(ROOT).restore({"s": dst}))
+        got = dst.loaded["st"]
+        for sh in got.local_shards():
+            o, z = sh.metadata.shard_offsets, sh.metadata.shard_sizes
+            if not torch.equal(sh.tensor, g[o[0]:o[0] + z[0]]):
+                ctx.fail("request-not-executed-exactly-once", "a read request of a restore that needs only the first and the last shard of "
+                         f"one slab ({gap_mib} MiB apart) was not executed: local shard at rows {o[0]} differs", inp, {"rows": [o[0], o[0] + z[0]]}, suite=suite)
+                break
+    except Exception as e:  # noqa
+        ctx.fail("request-not-executed-exactly-once", f"restore raised {type(e).__name__}: {str(e)[:200]}", inp, None, suite=suite)
+    ctx.count("prepared.slab_hole")
+    ctx.case(suite, inp, nontrivial=True, key=inp)
+
+
 def _gen_prepared(rng):
     import gen
     import sim
@@ -266,6 +302,8 @@ def _gen_prepared(rng):
 def run(ctx: Ctx):
     for _ in range(ctx.n(150, 2000)):
         _prepared_requests_case(ctx, _gen_prepared(ctx.rng))
+    for gap in ([17] if ctx.quick else [1, 17, 40]):
+        _slab_hole_case(ctx, gap)
     _corpus(ctx)
     total = ctx.time_left()
     _random(ctx, ctx.n(1500, 15000), reserve=total * 0.45)
@@ -274,6 +312,11 @@ def run(ctx: Ctx):
 
 def replay(ctx: Ctx, rec):
     inp = rec["input"]
+    if inp.get("slab_hole_mib"):
+        _slab_hole_case(ctx, inp["slab_hole_mib"], "replay")
+        for f in ctx.failures[:5]:
+            print("FAIL", f["sig"], f["what"])
+        return
     if inp.get("prepared_requests"):
         _prepared_requests_case(ctx, {k: v for k, v in inp.items() if k != "prepared_requests"}, "replay")
         for f in ctx.failures[:5]:
